@@ -473,6 +473,33 @@ def mergeCli (intern : List Char → Nat) (yopts : YOpts) (ylang : Option (List 
       | .null => .attributeError
       | .dict d => .ok (.dict (dupdate d cmd)) lang'
 
+/-! ## a format field given directly or derived from its template option
+
+`eval_template(NAME)`: set `fmt.NAME` from the option `NAME..._template`
+unless `NAME` is already local (written by the user under `format:`); some
+fields are post-processed afterwards (`F_module_name` is lower-cased). -/
+
+def evalTemplateD {β} (d : Dict β) (k : Nat) (fromTemplate : β) : Dict β :=
+  if dhas d k then d else dset d k fromTemplate
+
+def postD {β} (d : Dict β) (k : Nat) (post : β → β) : Dict β :=
+  match dget d k with
+  | some v => dset d k (post v)
+  | none => d
+
+/-- `LibraryNode.default_format`: `update(format)`, `eval_template`, then post-process -/
+def libraryField {β} (d : Dict β) (userFormat : List (Nat × β)) (k : Nat) (fromTemplate : β) (post : β → β) : Dict β :=
+  postD (evalTemplateD (dupdate d userFormat) k fromTemplate) k post
+
+/-- `NamespaceNode.default_format`: `eval_template`, `update(format)`, then post-process
+    (before the fix 50bd4cd the post-processing came before the update) -/
+def namespaceField {β} (d : Dict β) (userFormat : List (Nat × β)) (k : Nat) (fromTemplate : β) (post : β → β) : Dict β :=
+  postD (dupdate (evalTemplateD d k fromTemplate) userFormat) k post
+
+/-- the order before the fix: a value written under `format:` escaped the post-processing -/
+def namespaceFieldOld {β} (d : Dict β) (userFormat : List (Nat × β)) (k : Nat) (fromTemplate : β) (post : β → β) : Dict β :=
+  dupdate (postD (evalTemplateD d k fromTemplate) k post) userFormat
+
 /-! ## search path (`--path`, `create_wrapper(path=...)`) -/
 
 /-- `pth.split(":")` on code points -/
